@@ -57,9 +57,11 @@ impl UserPref {
             .expire_frequencies(now, FREQUENCY_EXPIRATION_DURATION)
     }
 
-    /// ユーザー定義辞書に複合語を登録する
+    /// 確定されたcandidateから、学習する複合語のentryを作る
     ///
     /// ここでの複合語は、接辞が含まれるもののみに限っており、一般的に言う複合語とは異なる。
+    /// ユーザー辞書への追加は、登録された単語と同じく辞書更新taskが一度だけ行う（ここでも追加すると、
+    /// user.dicに同じ行が二重に保存され、再起動後の辞書に同じ単語が二つ入ってしまう）。
     ///
     /// # Arguments
     /// * `candidate` - 対象のcandidate
@@ -74,7 +76,6 @@ impl UserPref {
                 )
             })
             .inspect(|entry| {
-                self.user_dictionary.add_entry(entry.clone());
                 tracing::info!("Learned new entry: {}", entry);
             })
     }
